@@ -866,3 +866,40 @@ func (W *vWorld) opBatch(kind int, tag string) {
 	W.checkAll(tag + "/batch")
 	vreach(tag + "/batch")
 }
+
+// ---- the same hazard with Shrink as the freeing step: the only child of (R1->p1, A) gains B
+// (its new table is created from the old table's relation list), Shrink frees the emptied
+// table while p1 lives on, another target recycles it, then the moved child is operated on.
+func VerifC15_RecycleAfterShrinkFreedTable() {
+	vMode = 1
+	W := vShapeRel(1, 60, false, 0)
+	vTighten(W.w)
+	p1 := W.e[1].h
+	c := 4 // the only child in (R1->p1, A)
+	W.u.Add(W.e[c].h, W.id[cB])
+	W.e[c].has[cB] = true
+	W.e[c].vel = vVel{}
+	W.checkAll("moved")
+	vclockbound(3599_000_000_000)
+	W.w.Shrink()
+	W.checkAll("shrunk")
+	a := W.create([]int{cA}, Entity{}, Entity{})
+	W.create([]int{cR1, cA}, W.e[a].h, Entity{}) // recycles the freed (R1->p1, A) table for another target
+	for i := a; i < W.n; i++ {
+		W.havocValues(i)
+	}
+	W.checkAll("recycled")
+	switch vPick("then", 3) {
+	case 0: // the moved child changes archetype again: its target must still be p1
+		W.u.Add(W.e[c].h, W.id[cT])
+		W.e[c].has[cT] = true
+	case 1:
+		W.u.Remove(W.e[c].h, W.id[cB])
+		W.e[c].has[cB] = false
+	case 2:
+		W.removeEntity(a)
+	}
+	vcheck("moved-child-keeps-its-target", W.u.GetRelation(W.e[c].h, W.id[cR1]) == p1)
+	W.checkAll("after")
+	vreach("end")
+}
